@@ -16,36 +16,7 @@ open TaRs TaRs.Rs
 section generic
 variable {F : Type} [Scalar F]
 
-/-- precise shape of one step: which branch is taken as a function of the comparison with the
-    cached slot `v` (read AFTER the write at the cursor) -/
-theorem next_eq (s : Maximum F) (x v : F) (h : WF s)
-    (hv : (s.deque.setIfInBounds s.cur_index x)[s.max_index]? = some v) :
-    ∃ o, s.next x = some
-      ({ period := s.period,
-         max_index := if Scalar.lt v x then s.cur_index
-                      else if s.max_index = s.cur_index then scan (s.deque.setIfInBounds s.cur_index x)
-                      else s.max_index,
-         cur_index := if s.cur_index + 1 < s.period then s.cur_index + 1 else 0,
-         deque := s.deque.setIfInBounds s.cur_index x }, o) ∧
-      (s.deque.setIfInBounds s.cur_index x)[if Scalar.lt v x then s.cur_index
-                      else if s.max_index = s.cur_index then scan (s.deque.setIfInBounds s.cur_index x)
-                      else s.max_index]? = some o := by
-  obtain ⟨hp, hs, hsz, hc, hmx⟩ := h
-  have hm : isizeMax < usizeMax := by decide
-  have hsz' : (s.deque.setIfInBounds s.cur_index x).size = s.period := by simpa using hsz
-  have hf : scan (s.deque.setIfInBounds s.cur_index x) < s.period := by
-    have := scan_lt (s.deque.setIfInBounds s.cur_index x) (by omega)
-    omega
-  have hi : s.max_index < (s.deque.setIfInBounds s.cur_index x).size := by omega
-  have hv' : (s.deque.setIfInBounds s.cur_index x)[s.max_index] = v := by
-    rw [Array.getElem?_eq_getElem hi] at hv; exact Option.some.inj hv
-  unfold next
-  rw [setIndex_eq _ _ _ (by omega)]
-  simp only [Option.bind_eq_bind, Option.bind_some, index_eq _ _ hi, hv']
-  cases c3 : Scalar.lt v x <;>
-  by_cases c1 : s.cur_index + 1 < s.period <;>
-  by_cases c2 : s.max_index = s.cur_index <;>
-    simp (disch := omega) [index_eq, uadd_eq, c1, c2, find_max_index_eq]
+-- (`next_eq`, the normal form of one step, lives in `TaRs.Lemmas.Maximum`)
 
 omit [Scalar F] in
 theorem mem_enumerate (d : Array F) (j : Nat) (v : F) : (j, v) ∈ enumerate d ↔ d[j]? = some v := by
